@@ -531,6 +531,44 @@ func stressStore(r *rng, thorough bool) stressResult {
 				return stressResult{OK: false, Kind: "store", Runs: total, Witness: w}
 			}
 		}
+		// ---- phase C: Bind racing Set / Delete of its key — every Bind either reports the missing key or binds the value
+		{
+			st := flyt.NewSharedStore()
+			var stop atomic.Bool
+			var wg sync.WaitGroup
+			type rec struct {
+				ID   int    `json:"id"`
+				Name string `json:"name"`
+			}
+			same := rec{ID: 7, Name: "same type"}
+			wg.Add(1)
+			go func() {
+				defer wg.Done()
+				for n := 0; !stop.Load(); n++ {
+					if n%2 == 0 {
+						st.Set("k", map[string]any{"id": 7, "name": "json path"})
+					} else {
+						st.Set("k", same)
+					}
+					st.Delete("k")
+				}
+			}()
+			end := time.Now().Add(slice / 2)
+			for time.Now().Before(end) {
+				var dst rec
+				err := st.Bind("k", &dst)
+				total++
+				if err == nil && dst.ID != 7 {
+					stop.Store(true)
+					wg.Wait()
+					return stressResult{OK: false, Kind: "store", Runs: total, Witness: map[string]any{
+						"what": "Bind returned nil although it bound nothing: the key was deleted between its existence check and its read",
+						"dest": fmt.Sprintf("%+v", dst)}}
+				}
+			}
+			stop.Store(true)
+			wg.Wait()
+		}
 	}
 	return stressResult{OK: true, Kind: "store", Runs: total}
 }
